@@ -32,6 +32,7 @@ import (
 	"gorm.io/gorm"
 
 	"github.com/siglens/siglens/pkg/alerts/alertutils"
+	"github.com/siglens/siglens/pkg/hooks"
 	"github.com/siglens/siglens/pkg/utils"
 	"github.com/valyala/fasthttp"
 
@@ -138,6 +139,48 @@ func validateAlertTypeAndQuery(alertToBeCreated *alertutils.AlertDetails) (strin
 	return "", nil
 }
 
+// getAlertOfRequest returns the alert with the given id. The requests that address an alert by its id carry no
+// org id; when the deployment resolves the org of a request (the hook CallWithMyIdQuery uses), an alert of
+// another org is answered like an alert that does not exist.
+func getAlertOfRequest(ctx *fasthttp.RequestCtx, alertId string) (*alertutils.AlertDetails, error) {
+	alert, err := databaseObj.GetAlert(alertId)
+	if err != nil {
+		return nil, err
+	}
+	if hook := hooks.GlobalHooks.GetOrgIdHookQuery; hook != nil && alert != nil {
+		orgId, err := hook(ctx)
+		if err != nil {
+			return nil, err
+		}
+		if alert.OrgId != orgId {
+			return nil, fmt.Errorf("alert does not exist, AlertId=%v", alertId)
+		}
+	}
+	return alert, nil
+}
+
+// verifyContactOfRequest is the same check for the requests that address a contact point by its id.
+func verifyContactOfRequest(ctx *fasthttp.RequestCtx, contactId string) error {
+	hook := hooks.GlobalHooks.GetOrgIdHookQuery
+	if hook == nil {
+		return nil
+	}
+	orgId, err := hook(ctx)
+	if err != nil {
+		return err
+	}
+	contacts, err := databaseObj.GetAllContactPoints(orgId)
+	if err != nil {
+		return err
+	}
+	for _, contact := range contacts {
+		if contact.ContactId == contactId {
+			return nil
+		}
+	}
+	return fmt.Errorf("contact does not exist, ContactId=%v", contactId)
+}
+
 func queryTextAndLanguage(alert *alertutils.AlertDetails) string {
 	params := alert.QueryParams
 	return fmt.Sprintf("QuerySearchText: %v, QueryLanguage: %v", params.QueryText, params.QueryLanguage)
@@ -226,7 +269,7 @@ func processAlertSilence(ctx *fasthttp.RequestCtx, isSilence bool) {
 	}
 
 	// Find alert in the database
-	alertDataObj, err := databaseObj.GetAlert(request.AlertID)
+	alertDataObj, err := getAlertOfRequest(ctx, request.AlertID)
 	if err != nil {
 		utils.SendError(ctx, fmt.Sprintf("Failed to find alert. Error=%v", err), fmt.Sprintf("alert ID: %v", request.AlertID), err)
 		return
@@ -348,7 +391,7 @@ func ProcessGetAlertRequest(ctx *fasthttp.RequestCtx) {
 
 	responseBody := make(map[string]interface{})
 	alert_id := utils.ExtractParamAsString(ctx.UserValue("alertID"))
-	alert, err := databaseObj.GetAlert(alert_id)
+	alert, err := getAlertOfRequest(ctx, alert_id)
 	if err != nil {
 		utils.SendError(ctx, fmt.Sprintf("Failed to get alert. Error=%v", err), fmt.Sprintf("alert ID: %v", alert_id), err)
 		return
@@ -421,7 +464,7 @@ func ProcessUpdateAlertRequest(ctx *fasthttp.RequestCtx) {
 	}
 
 	// Find alert in the database
-	alertToBeUpdated, err := databaseObj.GetAlert(input.AlertId)
+	alertToBeUpdated, err := getAlertOfRequest(ctx, input.AlertId)
 	if err != nil {
 		utils.SendError(ctx, fmt.Sprintf("Failed to find alert. Error=%v", err), fmt.Sprintf("alert ID: %v", input.AlertId), err)
 		return
@@ -511,6 +554,11 @@ func ProcessAlertHistoryRequest(ctx *fasthttp.RequestCtx) {
 		sortOrder = string(alertutils.DESC)
 	}
 
+	if _, err := getAlertOfRequest(ctx, alertId); err != nil {
+		utils.SendError(ctx, fmt.Sprintf("Failed to get alert history. Error=%v", err), fmt.Sprintf("alert ID: %v", alertId), err)
+		return
+	}
+
 	alertHistory, err := databaseObj.GetAlertHistoryByAlertID(&alertutils.AlertHistoryQueryParams{
 		AlertId:   alertId,
 		SortOrder: alertutils.DB_SORT_ORDER(sortOrder),
@@ -545,6 +593,10 @@ func ProcessDeleteAlertRequest(ctx *fasthttp.RequestCtx) {
 	err := json.Unmarshal(rawJSON, &alertToBeRemoved)
 	if err != nil {
 		utils.SendError(ctx, fmt.Sprintf("Failed to unmarshal json. Error=%v", err), "", err)
+		return
+	}
+	if _, err := getAlertOfRequest(ctx, alertToBeRemoved.AlertId); err != nil {
+		utils.SendError(ctx, fmt.Sprintf("Failed to delete alert. Error=%v", err), fmt.Sprintf("alert ID: %v", alertToBeRemoved.AlertId), err)
 		return
 	}
 	err = RemoveCronJob(alertToBeRemoved.AlertId)
@@ -629,7 +681,10 @@ func ProcessUpdateContactRequest(ctx *fasthttp.RequestCtx) {
 		utils.SendError(ctx, fmt.Sprintf("Failed to unmarshal json. Error=%v", err), "", err)
 		return
 	}
-	err = databaseObj.UpdateContactPoint(contactToBeUpdated)
+	err = verifyContactOfRequest(ctx, contactToBeUpdated.ContactId)
+	if err == nil {
+		err = databaseObj.UpdateContactPoint(contactToBeUpdated)
+	}
 	if err != nil {
 		utils.SendError(ctx, fmt.Sprintf("Failed to update contact. Error=%v", err), fmt.Sprintf("contact name: %v", contactToBeUpdated.ContactName), err)
 		return
@@ -659,7 +714,10 @@ func ProcessDeleteContactRequest(ctx *fasthttp.RequestCtx) {
 		return
 	}
 
-	err = databaseObj.DeleteContactPoint(contact.ContactId)
+	err = verifyContactOfRequest(ctx, contact.ContactId)
+	if err == nil {
+		err = databaseObj.DeleteContactPoint(contact.ContactId)
+	}
 	if err != nil {
 		utils.SendError(ctx, fmt.Sprintf("Failed to delete contact. Error=%v", err), fmt.Sprintf("contact ID: %v", contact.ContactId), err)
 		return
